@@ -224,6 +224,10 @@ type Node struct {
 	Watch    bool // WatchOnly() flag
 	Dead     bool // panicked or switched off
 	Restarts int
+	// NoPoolOnSupply: the application hands requested transactions to OnTransaction without putting them
+	// into the pool GetTx reads (e.g. transactions its pool policy refuses); a later proposal listing
+	// them again makes the node request them again
+	NoPoolOnSupply bool
 
 	PendingReset bool
 	ResetAt      int64      // virtual instant at which the application will call Reset (0: unset)
@@ -796,7 +800,9 @@ func (n *Node) Timeout(h uint32, v byte, note string) {
 
 // SupplyTx adds the transaction to the pool and calls OnTransaction.
 func (n *Node) SupplyTx(t *Tx) {
-	n.Pool[t.Hash()] = t
+	if !n.NoPoolOnSupply {
+		n.Pool[t.Hash()] = t
+	}
 	delete(n.Requested, t.Hash())
 	n.call("OnTransaction", &Event{Tx: t}, func() { n.D.OnTransaction(t) })
 }
